@@ -20,6 +20,12 @@ call form)`) extended with **mutation**:
                     empties **one** table (the one of the top-level state's class) and nothing for link
                     changes; on the repaired tree `clear_all_caches()`.
 
+* re-entrant mutations (round 3) — in glue a data-side mutation is not atomic: it is a *script* of
+                    `clear_all_caches()` calls, state changes and hub broadcasts, and hub listeners evaluate
+                    selections inside their message handlers.  Section "Re-entrant evaluation" below:
+                    `Phase`, `Listeners`, `expand`, the transcribed scripts (`Script.*`, `Mutation`), the
+                    dirty-flag `flow` and `Sound`.
+
 `Spec` is the property: every evaluation returns `Expr.denote` of the selection value the object
 *currently* stands for, in the *current* leaf environment — which is what a freshly constructed,
 never-evaluated deep copy returns with cleared memo tables (theorem `spec_always_fresh`).
